@@ -45,7 +45,7 @@ BRANCH_NAMES = ["origin/release/1.0", "origin/release/1.10", "origin/release/1.2
                 "origin/release/10.1", "origin/release/9.9", "origin/master", "origin/main",
                 "origin/release/1.2.1", "origin/release/1.02", "origin/release/2-9", "origin/release/2-10",
                 "origin/release/3_1", "origin/release/3_10", "origin/release/rc-2", "origin/release/rc-10"]
-TEXTS = ["BUG-7", "BUG-71", "fix"]
+TEXTS = ["BUG-7", "BUG-71", "fix", "BUG-7 ", " change", "fix "]
 
 
 def gen_history(rng, max_commits=25):
@@ -89,6 +89,8 @@ def gen_history(rng, max_commits=25):
         if rng.random() < 0.35:
             for _ in range(2 if rng.random() < 0.12 else 1):
                 bn += 1
+                if rng.random() < 0.04:
+                    bn = max(bn, rng.choice([8887, 8888, 9998, 9999]))   # numbers that look like the reserved ones
                 tags[f"build_{bn}_release_{rng.randint(1, 3)}_{rng.randint(0, 3)}_success"] = cid
     return mg.Repo("r", commits, heads, tags)
 
@@ -96,8 +98,9 @@ def gen_history(rng, max_commits=25):
 HASH_RE = re.compile(r"^([0-9a-f]{8,40}) ")
 
 
-def parse_printed(text):
-    """printed report -> {branch: [hash-prefix, ...]} (in printed order)"""
+def parse_printed(text, sections=None):
+    """printed report -> {branch: [hash-prefix, ...]} (in printed order);
+    sections (optional dict) receives {branch: [(section title, [hash-prefix, ...]), ...]}"""
     res = {}
     cur = None
     for line in text.split("\n"):
@@ -105,9 +108,15 @@ def parse_printed(text):
         if m:
             if cur is not None:
                 res[cur].append(m.group(1))
+                if sections is not None and sections[cur]:
+                    sections[cur][-1][1].append(m.group(1))
         elif line.startswith("r ") and line.endswith(":"):
             cur = line[2:-1]
             res[cur] = []
+            if sections is not None:
+                sections[cur] = []
+        elif line.startswith("  ") and cur is not None and sections is not None:
+            sections[cur].append((line.strip(), []))
     return res
 
 
@@ -202,7 +211,32 @@ def judge(ctx, repo, text, case, repos=None):
         printed = None
     if printed is not None:
         ctx.count("printed_reports_parsed")
-        got = parse_printed(printed)
+        sections = {}
+        got = parse_printed(printed, sections)
+        # the titles of the printed sections: a build number, '- not built -' or '- not merged -'
+        for br in rgraph.branches:
+            want_sections = []
+            for rb in br.rbuilds.values():
+                hashes = sorted(rc.commit.hexsha for rc in rb.get_printable_rcommits())
+                if rb.build_type == RBuild.FAKE_NOT_MERGED:
+                    kind = "not merged"
+                elif rb.rcommit.commit.intid not in tagged:
+                    kind = "not built"
+                else:
+                    kind = str(rb.build_num)
+                want_sections.append((kind, hashes))
+            have = []
+            for title, hs in sections.get(br.branch_name, []):
+                kind = "not merged" if "not merged" in title else "not built" if "not built" in title else \
+                    title.split(" ")[0]
+                have.append((kind, sorted(hs)))
+            ok = len(have) == len(want_sections) and all(
+                hk == wk and len(hh) == len(wh) and all(w.startswith(h) for w, h in zip(wh, hh))
+                for (hk, hh), (wk, wh) in zip(sorted(have), sorted(want_sections)))
+            if not ok:
+                problems.append(("printed-section-titles-differ-from-report-data",
+                                 {"branch": br.branch_name, "printed": [(k, len(h)) for k, h in have][:6],
+                                  "data": [(k, len(h)) for k, h in want_sections][:6]}))
         for bname, listed in listed_by_branch.items():
             want = sorted(repo.commits[cid].hexsha for cid in listed)
             have = sorted(got.get(bname, []))
